@@ -340,6 +340,12 @@ BranchSizesB == {<<1, 1>>, <<2, 1>>, <<1, 2>>, <<2, 2>>, <<3, 2>>}
 DeltasA == {<<1, 0>>, <<-1, 0>>, <<0, 1>>, <<0, -1>>, <<2, 0>>, <<-2, 0>>, <<0, 2>>, <<0, -2>>, <<1, 1>>, <<-2, -2>>,
             <<3, 0>>, <<-3, 0>>, <<0, 3>>, <<0, -3>>}
 EdgeDsA == {-1, 1}
+\* catalogues for LegalPost.tla: a trunk large enough for a branch to be fused into it, a 1x1 neighbour for the notch
+TrunkSizesP == {<<4, 5>>, <<1, 1>>}
+BranchSizesP == {<<3, 1>>, <<1, 1>>, <<1, 2>>}
+\* thinner catalogues for Verifier.tla (every run of the real verifier parses three YAML documents)
+DeltasV == {<<1, 0>>, <<0, -1>>, <<-2, -2>>, <<3, 0>>, <<-3, 0>>, <<0, 3>>, <<0, -3>>}
+SlidesV == {<<1, 0>>, <<-1, 0>>, <<0, 1>>, <<0, -1>>, <<2, 0>>}
 SlidesA == {<<1, 0>>, <<-1, 0>>, <<0, 1>>, <<0, -1>>, <<2, 0>>, <<0, 2>>}
 
 (***************************************************************************)
